@@ -112,3 +112,31 @@ package services
 //@   requires cfg: c.dynconfig != nil
 //@   at call Get#1 assert own-bit: defaultNamespace == "" || $arg2.Namespace == defaultNamespace || c.dynconfig.CrossNamespaceServices
 //@ end
+
+// ---------------------------------------------------------------------------
+// C12 — failures are reported and retried
+
+//@ count HAUpdate    = (haproxy.Instance).HAProxyUpdate
+//@ count HAReload    = (haproxy.Instance).Reload
+//@ count ReloadRetry = (utils.QueueFacade).AddAfter
+//@ count ConvSync    = (converters.Config).Sync
+
+// the model is synchronised, then HAProxy is updated, and the update's error is returned
+//@ func (*Services).ReconcileIngress
+//@   props C12
+//@   ensures updated:   calls(HAUpdate) == 1 && calls(ConvSync) == 1
+//@   ensures propagate: (result == nil) == (last(HAUpdate) == nil)
+//@   ensures unlocked:  !held(s.modelMutex)
+//@   requires unlocked: !held(s.modelMutex)
+//@   at call HAProxyUpdate#1 assert synced: calls(ConvSync) == 1
+//@ end
+
+// a failed reload re-adds itself to the reload queue
+//@ func (*Services).reloadHAProxy
+//@   props C12
+//@   requires unlocked: !held(s.modelMutex)
+//@   ensures once:  calls(HAReload) == 1
+//@   ensures retry: last(HAReload) != nil ==> calls(ReloadRetry) == 1
+//@   ensures ok:    last(HAReload) == nil ==> calls(ReloadRetry) == 0
+//@   ensures unlocked: !held(s.modelMutex)
+//@ end
